@@ -74,7 +74,12 @@ def run_property(pid, args, contracts, seed):
         recs.extend(e["recs"])
 
     # ---- stage B: discharge
-    uniq = [r for r in recs if "dup_of" not in r and r.get("trivial") is None]
+    uniq = [r for r in recs if "dup_of" not in r and r.get("trivial") is None and r.get("inline") is None]
+    strategies = ledger.get("strategies", {})
+    for r in uniq:
+        h = strategies.get(r["key"])
+        if h:
+            r["hint"] = h
     scale = 1.0 if tier == "quick" else 3.0
     results = {}
     t_solve0 = time.time()
@@ -91,6 +96,8 @@ def run_property(pid, args, contracts, seed):
     for r in recs:
         if r.get("trivial") is not None:
             r["result"] = dict(status=r["trivial"], backend="syntactic", variant="-", seconds=0.0, attempts=[], model=None)
+        elif r.get("inline") is not None:
+            r["result"] = r["inline"]
         else:
             r["result"] = results[r["key"]]
 
@@ -361,6 +368,13 @@ def _update_ledger(pid, exp, recs, n_obl):
         led["contracts"][e["contract"]] = dict(functions={q: i.get("hash") for q, i in e["functions"].items()}, modules=e["modules"],
                                                discharged=names, paths=e["paths"])
     led["properties"][pid] = dict(min_obligations=n_obl)
+    # remember which (variant, back end) discharged each slow obligation: nlsat is order/strategy sensitive, the recorded
+    # strategy is tried first so that verdicts on the unchanged tree do not depend on luck
+    st = led.setdefault("strategies", {})
+    for r in recs:
+        res = r.get("result") or {}
+        if res.get("status") == "unsat" and res.get("seconds", 0) > 2.0 and res.get("backend") not in (None, "syntactic") and "dup_of" not in r:
+            st[r["key"]] = [res["variant"], res["backend"]]
     os.makedirs(os.path.dirname(p), exist_ok=True)
     with open(p, "w") as f:
         json.dump(led, f, indent=1, sort_keys=True)
@@ -445,6 +459,8 @@ def write_evidence(pid, tier, seed, sel, exp, recs, n_obl, n_dis, by_backend, so
         rule="obligations are distinct when their SMT-LIB text differs; syntactically true goals are not counted as non-trivial; "
              "bounded cases are distinct random inputs that satisfy the contract's precondition",
     )
+    if pid == "C05":
+        cov["lean_rules_checked_at_setup"] = os.path.exists(os.path.join(VERIF, ".work", "lean_ok"))
     if extra is not None:
         cov["bounded_property_harness"] = extra
     ev = dict(property_id=pid, tier=tier if tier in ("quick", "thorough") else "quick", seed=seed, level=level, coverage=cov,
